@@ -561,8 +561,30 @@ func (self *Analyzer) TypeCheck(got ast.Type, expected ast.Type, options TypeChe
 				}
 			}
 		case ast.VarArgsFunctionTypeParamKindIdentifierKind:
-			// TODO: ...
-			panic("TODO: implement or remove this")
+			expectedVarArgs := expectedFn.Params.(ast.VarArgsFunctionTypeParamKindIdentifier)
+			gotVarArgs := gotFn.Params.(ast.VarArgsFunctionTypeParamKindIdentifier)
+
+			if len(expectedVarArgs.ParamTypes) != len(gotVarArgs.ParamTypes) {
+				return newCompatibilityErr(
+					diagnostic.Diagnostic{
+						Level:   diagnostic.DiagnosticLevelError,
+						Message: fmt.Sprintf("Expected %d fixed parameter(s), got %d", len(expectedVarArgs.ParamTypes), len(gotVarArgs.ParamTypes)),
+						Notes:   []string{},
+						Span:    gotFn.ParamsSpan,
+					},
+					nil,
+				)
+			}
+
+			for idx, expectedParamType := range expectedVarArgs.ParamTypes {
+				if err := self.TypeCheck(gotVarArgs.ParamTypes[idx], expectedParamType, options); err != nil {
+					return err
+				}
+			}
+
+			if err := self.TypeCheck(gotVarArgs.RemainingType, expectedVarArgs.RemainingType, options); err != nil {
+				return err
+			}
 		default:
 			panic("A new function parameter type kind was introduced without updating this code")
 		}
